@@ -417,17 +417,17 @@ impl EntriesIter {
             return None;
         }
 
-        // Defer directories as directed
-        if entry.is_dir() && self.opts.contents_first {
-            self.deferred.push(entry);
-            return None;
-        }
-
         // Filter as directed
         if let Some(filter) = &mut self.filter {
             if !(filter)(&entry) {
                 return None;
             }
+        }
+
+        // Defer directories as directed
+        if entry.is_dir() && self.opts.contents_first {
+            self.deferred.push(entry);
+            return None;
         }
 
         Some(Ok(entry))
